@@ -28,6 +28,29 @@ Theorem C18_in_place : forall off len key arr, (off + len <= length arr)%nat ->
   /\ length (mask_region off len key arr) = length arr.
 Proof. exact mask_region_shape. Qed.
 
+(* ... and inside the region byte off+i becomes byte off+i XOR key[i mod 4]: the key index counts from the start
+   of the slice, for every offset of the slice within its backing array (every alignment) *)
+Theorem C18_region_pointwise : forall off len key arr i, (off + len <= length arr)%nat -> (i < len)%nat ->
+  nth (off + i) (mask_region off len key arr) 0
+  = N.lxor (nth (off + i) arr 0) (nth (N.to_nat (N.of_nat i mod 4)) key 0).
+Proof. exact mask_region_inside. Qed.
+
+(* masking distributes over concatenation with the key index carried on, so a payload cut at a multiple of 4
+   (the 64- and 8-byte loops, a frame payload masked segment by segment) may restart the key at index 0 *)
+Theorem C18_concat : forall key a b i,
+  mask_from i key (a ++ b) = mask_from i key a ++ mask_from (i + N.of_nat (length a)) key b.
+Proof. intros key a b i. apply mask_from_app. Qed.
+
+Theorem C18_concat_aligned : forall key a b, (N.of_nat (length a)) mod 4 = 0 ->
+  mask_spec key (a ++ b) = mask_spec key a ++ mask_spec key b.
+Proof. exact mask_spec_app_aligned. Qed.
+
+(* non-vacuity: a 5-byte slice at the odd offset 3 of a 12-byte array *)
+Example C18_region_nonvacuous :
+  let arr := map N.of_nat (seq 100 12) in
+  mask_region 3 5 [1; 2; 4; 8] arr = [100; 101; 102; 102; 106; 109; 98; 106; 108; 109; 110; 111].
+Proof. vm_compute. reflexivity. Qed.
+
 (* consequently: a client-masked payload unmasks (by the implementation) to the original *)
 Theorem C18_unmask_roundtrip : forall key p,
   length key = 4%nat -> wf_bytes key -> wf_bytes p ->
@@ -68,6 +91,9 @@ Print Assumptions C18_pointwise.
 Print Assumptions C18_involutive.
 Print Assumptions C18_length.
 Print Assumptions C18_in_place.
+Print Assumptions C18_region_pointwise.
+Print Assumptions C18_concat.
+Print Assumptions C18_concat_aligned.
 Print Assumptions C18_unmask_roundtrip.
 Print Assumptions C18_mask_from_source.
 Print Assumptions C18_mask_pieces_from_source.
